@@ -40,9 +40,9 @@ func writeQuery(dir string, idx int, prelude string, o *Obligation) (string, err
 	b.WriteString("(set-option :produce-models true)\n(set-logic ALL)\n")
 	b.WriteString(prelude)
 	if o.Guard != "" && o.Guard != "true" {
-		fmt.Fprintf(&b, "(assert %s)\n", o.Guard)
+		fmt.Fprintf(&b, "(assert %s)\n", monoOptions(o.Guard))
 	}
-	fmt.Fprintf(&b, "(assert (not %s))\n", o.Goal)
+	fmt.Fprintf(&b, "(assert (not %s))\n", monoOptions(o.Goal))
 	b.WriteString("(check-sat)\n(get-model)\n")
 	if b.Len() > maxVCBytes {
 		return "", fmt.Errorf("verification condition of %d bytes exceeds the cap of %d", b.Len(), maxVCBytes)
@@ -79,6 +79,17 @@ func race(file string, timeoutS int, concrete bool) (verdict, solver, output str
 			_ = cmd.Run()
 			txt := out.String()
 			first := strings.TrimSpace(strings.SplitN(txt, "\n", 2)[0])
+			// a solver that reported an error before its verdict answered a different problem
+			for _, l := range strings.Split(txt, "\n") {
+				l = strings.TrimSpace(l)
+				if l == "sat" || l == "unsat" || l == "unknown" || l == "timeout" {
+					break
+				}
+				if strings.HasPrefix(l, "(error") {
+					first = l
+					break
+				}
+			}
 			v := "unknown"
 			switch first {
 			case "unsat":
